@@ -188,7 +188,13 @@ class allow_eq:
         self.c.allow_eq = self.old
 
 
-GEN = {'C11': gen_defs}
+def _gen_c04(spt, salt=0):
+    from . import c04
+    return c04.gen_defs(spt, salt)
+
+
+# Props/C11 also uses the traced Arc.point of C04, so that trace is regenerated here too
+GEN = {'C11': gen_defs, 'C04': _gen_c04}
 
 
 def _pairs_str(prs, sort=False):
